@@ -6,9 +6,16 @@ package simrt
 // happens-before edge, so the race detector can never fire (see handoff_pipe.go).
 type handoff struct{ ch chan struct{} }
 
-func (h *handoff) init()   { h.ch = make(chan struct{}, 1) }
-func (h *handoff) park()   { <-h.ch }
+//go:norace
+func (h *handoff) init() { h.ch = make(chan struct{}, 1) }
+
+//go:norace
+func (h *handoff) park() { <-h.ch }
+
+//go:norace
 func (h *handoff) unpark() { h.ch <- struct{}{} }
-func (h *handoff) close()  {}
+
+//go:norace
+func (h *handoff) close() {}
 
 const PipeHandoff = false
